@@ -167,6 +167,9 @@ INT_FUNCS = {
     "uncompact": lambda a5, s, x, rx: importlib.import_module("a5.core.compact").uncompact([x], min(rx + 1, 29)),
     "uncompact2": lambda a5, s, x, rx: importlib.import_module("a5.core.compact").uncompact([x], min(rx + 2, 29)),
     "compact": lambda a5, s, x, rx: importlib.import_module("a5.core.compact").compact(s.cell_to_children(x, min(rx + 1, 29))),
+    # a call that fails half way (the second cell is finer than the target): must not leave anything behind
+    "uncompact_fail": lambda a5, s, x, rx: importlib.import_module("a5.core.compact").uncompact(
+        [x, s.cell_to_children(x, min(rx + 2, 29))[0]], min(rx + 1, 28)),
     "is_first_child": lambda a5, s, x, rx: s.is_first_child(x),
     "get_num_cells": lambda a5, s, x, rx: importlib.import_module("a5.core.cell_info").get_num_cells(rx),
 }
@@ -433,7 +436,8 @@ def jobs(tier, seed):
     # histories across the 12 -> 5 -> 4 aperture changes and between the one- and two-level variants
     kids = ("cell_to_children", "cell_to_children2", "cell_to_children3")
     for f, g in [(a, b) for a in kids for b in kids if not (a == b == "cell_to_children")] + \
-            [("uncompact2", "uncompact2"), ("uncompact", "uncompact2"), ("uncompact2", "uncompact")]:
+            [("uncompact2", "uncompact2"), ("uncompact", "uncompact2"), ("uncompact2", "uncompact"), ("uncompact_fail", "uncompact"),
+             ("uncompact_fail", "uncompact2"), ("uncompact_fail", "compact"), ("uncompact_fail", "cell_to_children")]:
         for rx, ry in ((-1, -1), (0, 0), (0, 2), (2, 0), (-1, 2), (1, 3), (-1, 0), (0, -1)):
             js.append(Job("history[%s;%s;%d,%d]" % (f, g, rx, ry), "h_int_history", {"f": f, "g": g, "rx": rx, "ry": ry},
                           {"max_paths": 3000}, weight=2))
@@ -547,6 +551,7 @@ FUNCS = {
     "uncompact": lambda x, rx: a5.uncompact([x], min(rx + 1, 29)),
     "uncompact2": lambda x, rx: a5.uncompact([x], min(rx + 2, 29)),
     "compact": lambda x, rx: a5.compact(s.cell_to_children(x, min(rx + 1, 29))),
+    "uncompact_fail": lambda x, rx: a5.uncompact([x, s.cell_to_children(x, min(rx + 2, 29))[0]], min(rx + 1, 28)),
     "is_first_child": lambda x, rx: s.is_first_child(x),
     "get_num_cells": lambda x, rx: a5.get_num_cells(rx),
 }
